@@ -50,6 +50,9 @@ def shards(tier, seed):
                     out.append({"id": "d1-rw%d-l0-%s-%s" % (rw, ck, f), "detect": True, "rw": rw, "link": False, "L": L, "first": f, "cmd": ck})
     # long quiet stretches (hundreds to thousands of commands on one device object) before the node is replaced or goes away
     out.append({"id": "long-quiet", "long_quiet": True, "reps": 1 if tier == "quick" else 6})
+    # the caller's own close() ... open(), and earlier nodes that return to the path (renamed aside and back, a link that flips
+    # between two live nodes)
+    out.append({"id": "reopen-flipback", "reopen": True, "L": 6 if tier == "quick" else 8})
     # a process without standard input (a daemon, a cron job): the device node is then opened on descriptor 0
     out.append({"id": "d1-rw0-l0-no-stdin", "detect": True, "rw": False, "link": False, "L": 3 if tier == "quick" else 4, "first": None, "no_stdin": True})
     out.append({"id": "iscsi", "iscsi": True})
@@ -129,7 +132,7 @@ class World:
         self.sg.handler = lambda ev: (self.status, self.sense)
 
 
-def run_sequence(ctx, w, seq, term, detect, rw, link=False, facade=False, cmdkind="tur"):
+def run_sequence(ctx, w, seq, term, detect, rw, link=False, facade=False, cmdkind="tur", replug_kind=None):
     import pyscsi.pyscsi.scsi_enum_command as E
     from pyscsi.pyscsi.scsi import SCSI
     from pyscsi.pyscsi.scsi_cdb_testunitready import TestUnitReady
@@ -222,6 +225,8 @@ def run_sequence(ctx, w, seq, term, detect, rw, link=False, facade=False, cmdkin
     disturbed = False
 
     def quiescent(where):
+        if state.get("bare_open"):
+            return
         n = len(devnode.open_fds_on(node))
         want = 1 if is_open else 0
         if state["handle_lost"] and is_open and n in (0, 1):
@@ -332,12 +337,41 @@ def run_sequence(ctx, w, seq, term, detect, rw, link=False, facade=False, cmdkin
         elif evn == "R":
             # the ways a name gets another node: renamed over, the old node moved aside first (it lives on under another name),
             # the old node having a second name of its own
-            rk = devnode.REPLUG_KINDS[(len(seq) + pos * 2 + seq.count("R")) % len(devnode.REPLUG_KINDS)]
+            rk = replug_kind or devnode.REPLUG_KINDS[(len(seq) + pos * 2 + seq.count("R")) % len(devnode.REPLUG_KINDS)]
             devnode.replug(node, rk)
             if not link:
                 ctx.add("replug_kinds", rk)
             state["exists"] = True
             disturbed = True
+        elif evn in "PQ":
+            # the caller releases the device and opens it again himself (close() ... open() on the same object); Q: open() alone,
+            # as a caller does who handles replugs himself (detection off)
+            try:
+                if evn == "P":
+                    dev.close()
+                dev.open()
+                if state["exists"] and os.fstat(dev._file.fileno()).st_ino != os.stat(node).st_ino:
+                    fail("callers_open_not_on_the_node_at_the_path", "after the caller's %sopen() the device's handle is on inode %d, the node at the path has inode %d"
+                         % ("close() ... " if evn == "P" else "", os.fstat(dev._file.fileno()).st_ino, os.stat(node).st_ino))
+                state["original"] = dev._file
+                state["handle_lost"] = False
+            except Exception as e:  # noqa: BLE001
+                if state["exists"]:
+                    fail("reopen_by_caller_raises.%s" % type(e).__name__, "close() ... open() by the caller raised %r" % e)
+                    return False
+                state["handle_lost"] = True
+            ctx.count("caller_reopens")
+            if evn == "Q":
+                # (open() on an open device replaces the file object; the unchanged library leaves the old one to the garbage
+                # collector, and the harness holds a reference to every handle: descriptors are not counted in such a sequence)
+                state["bare_open"] = True
+            if state["exists"]:
+                quiescent("after the caller's %sopen()" % ("close() ... " if evn == "P" else ""))
+        elif evn == "B":
+            # the node that was at the path before returns to it (same inode, still alive)
+            if state["exists"] and devnode.flip_back(node):
+                ctx.count("earlier_nodes_returned_to_the_path")
+                disturbed = True
         elif evn == "U":
             if state["exists"]:
                 # the ways a node vanishes: the name is gone, it dangles, it resolves to itself, its directory is gone
@@ -414,7 +448,7 @@ def run_sequence(ctx, w, seq, term, detect, rw, link=False, facade=False, cmdkin
             gc.collect()
         quiescent("after dropping the device object")
         for h in w.handles:
-            if h.real_closes != 1:
+            if h.real_closes != 1 and not state.get("bare_open"):
                 fail("handle_closed_%d_times" % h.real_closes, "an OS handle was released %d times" % h.real_closes)
     else:
         # still open: every superseded handle must be closed
@@ -661,6 +695,20 @@ def run(shard, ctx):
                     ctx.case((shard["detect"], "facade", "".join(tup), term), True, sample={"detect": shard["detect"], "through_facade": True, "sequence": "".join(tup) + term} if ctx.want_sample() else None)
                     ctx.count("sequences")
         ctx.add("sequence_max_length", shard["L"])
+        return
+    if shard.get("reopen"):
+        for n in range(2, shard["L"] + 1):
+            for tup in itertools.product("ERPBQ", repeat=n):
+                seq = "".join(tup)
+                if not (set(seq) & set("PBQ")) or not seq.endswith("E") or any(x + x in seq for x in "RPBQ") or seq.count("Q") > 2:
+                    continue
+                for rw, detect in ((False, True), (True, True), (True, False)):
+                    if not detect and "Q" not in seq and "P" not in seq:
+                        continue
+                    nt = run_sequence(ctx, w, seq, "C", detect, rw, False, False, "tur", "moved-aside")
+                    ctx.case(("reopen-flipback", rw, detect, seq), bool(nt))
+                    ctx.count("sequences")
+                    ctx.count("reopen_flipback_sequences")
         return
     if shard.get("long_quiet"):
         from vmon import srcdict
